@@ -275,6 +275,89 @@ func markerPhase(o *common.Opts, pipelines int) (done, cmds int, cmdNames map[st
 				Detail: "TCP concurrent large replies against the real binary", Sig: "marker|concurrent large replies"})
 		}
 	}
+	// a connection that has subscribed to a channel keeps sending commands with large array replies while two
+	// publishers publish to that channel: pushes and replies share the socket, and every value on it must still be
+	// either a whole push or a whole reply (a push must never land inside a reply)
+	if srv != nil && !srv.Exited() {
+		const elems, rounds = 3000, 60
+		sub, err := respc.Dial(srv.Addr, 60*time.Second)
+		if err == nil {
+			args := [][]byte{[]byte("RPUSH"), []byte("pushmix:list")}
+			var want [][]byte
+			for j := 0; j < elems; j++ {
+				e := []byte(fmt.Sprintf("el-%d\r\n", j))
+				want = append(want, e)
+				args = append(args, e)
+			}
+			_, _ = sub.DoB(args)
+			_ = sub.Send(respc.Cmd("SUBSCRIBE", "pushmix:ch"))
+			_, _ = sub.RecvTimeout(10 * time.Second) // the confirmation
+			stop := make(chan struct{})
+			var pwg sync.WaitGroup
+			for p := 0; p < 2; p++ {
+				pwg.Add(1)
+				go func(p int) {
+					defer pwg.Done()
+					c, err := respc.Dial(srv.Addr, 30*time.Second)
+					if err != nil {
+						return
+					}
+					defer c.Close()
+					for i := 0; ; i++ {
+						select {
+						case <-stop:
+							return
+						default:
+						}
+						if _, err := c.Do("PUBLISH", "pushmix:ch", fmt.Sprintf("push-%d-%d", p, i)); err != nil {
+							return
+						}
+					}
+				}(p)
+			}
+			bad := ""
+			pushes, replies := 0, 0
+			for rd := 0; rd < rounds && bad == ""; rd++ {
+				_ = sub.Send(respc.Cmd("LRANGE", "pushmix:list", "0", "-1"))
+				for bad == "" {
+					v, err := sub.RecvTimeout(30 * time.Second)
+					if err != nil {
+						bad = fmt.Sprintf("round %d: the stream of pushes and replies does not decode: %v", rd, err)
+						break
+					}
+					if v.Kind == '*' && len(v.Arr) == 3 && string(v.Arr[0].Str) == "message" {
+						pushes++
+						if string(v.Arr[1].Str) != "pushmix:ch" || !strings.HasPrefix(string(v.Arr[2].Str), "push-") {
+							bad = fmt.Sprintf("round %d: damaged push %s", rd, v.String())
+						}
+						continue
+					}
+					if v.Kind != '*' || len(v.Arr) != elems {
+						bad = fmt.Sprintf("round %d: a value that is neither a push nor the %d-element reply: kind %c, %d elements", rd, elems, v.Kind, len(v.Arr))
+						break
+					}
+					for j := range v.Arr {
+						if !bytes.Equal(v.Arr[j].Str, want[j]) {
+							bad = fmt.Sprintf("round %d: element %d of the reply is %q, stored %q", rd, j, v.Arr[j].Str, want[j])
+							break
+						}
+					}
+					replies++
+					break
+				}
+			}
+			close(stop)
+			pwg.Wait()
+			sub.Close()
+			cmds += replies
+			cmdNames["LRANGE(3000 elements, on a subscribed connection, pushes arriving)"] += replies
+			cmdNames["(pushes decoded between those replies)"] += pushes
+			if bad != "" {
+				divs = append(divs, seqrun.Div{Kind: "framing", Cmd: []string{"SUBSCRIBE pushmix:ch", "LRANGE pushmix:list 0 -1 (repeated)", "PUBLISH pushmix:ch ... (two other connections)"}, Want: "every value on the socket is a whole push or a whole reply",
+					Got: bad, Detail: "TCP large replies on a subscribed connection against the real binary", Sig: "marker|push inside a reply"})
+			}
+		}
+	}
 	// slow reader: replies larger than the socket buffers are left unread for a while; afterwards the
 	// stream must still be exactly one well-formed value per command (no truncated or dropped reply)
 	if srv != nil && !srv.Exited() {
